@@ -123,7 +123,7 @@ def _case(draw):
             if kd == "N" and j == n - 1 and draw(st.integers(0, 3)) == 0:
                 d = str(draw(st.integers(1, 5)))
             params.append([nm, kd, d])
-        helpers.append({"name": f"h{i}", "style": draw(st.sampled_from(["def", "def", "lambda", "defdoc"])), "params": params, "body": body, "ret": want})
+        helpers.append({"name": f"h{i}", "style": draw(st.sampled_from(["def", "def", "lambda", "defdoc", "lambda-arg", "lambda-decoy"])), "params": params, "body": body, "ret": want})
     p = draw(st.sampled_from(["e", "e", "j", "a", "x"]))
     inner = draw(st.sampled_from(["j", "a", "x", "b", "v"]))
     items = []
@@ -167,11 +167,15 @@ def strategy(tier):
 
 
 def module_text(case):
-    lines = []
+    lines = ["def _keep(f):\n    return f"]
     for h in case["helpers"]:
         ps = ", ".join(n if d is None else f"{n}={d}" for n, _, d in h["params"])
         if h["style"] == "lambda":
             lines.append(f"{h['name']} = lambda {ps}: {h['body']}")
+        elif h["style"] == "lambda-arg":  # a lambda helper written as the argument of a call: its source is recoverable
+            lines.append(f"{h['name']} = _keep(lambda {ps}: {h['body']})")
+        elif h["style"] == "lambda-decoy":  # an unrelated lambda with the same parameter list on the line above the helper
+            lines.append(f"_decoy_{h['name']} = _keep(lambda {ps}: 12345)\n{h['name']} = lambda {ps}: {h['body']}")
         elif h["style"] == "defdoc":
             lines.append(f"def {h['name']}({ps}):\n    \"a helper\"\n    return {h['body']}")
         else:
